@@ -1,5 +1,5 @@
 hdr = r'''#![feature(allocator_api)]
-// Unit BASIC: simple documented functions — get, size, ?, default, and, or, not, xor, first, last, all, any, pop, push, put, insert_if_absent, replace_if_exists, entries, range, push_front, pop_first, the seven type checks and five casts (C04, C05)
+// Unit BASIC: simple documented functions — get, size, ?, default, and, or, not, xor, first, last, all, any, pop, push, put, insert_if_absent, replace_if_exists, entries, range, push_front, pop_first, the seven type checks and five casts, = != concat join (C04, C05)
 use vstd::prelude::*;
 use std::rc::Rc;
 use vstd::std_specs::iter::IteratorSpec;
@@ -301,5 +301,78 @@ for (mod, file, fid, pat, doc) in [
     ("f_as_string","cast/as_string.rs","f.as_string","JsonValue::String(_)","(as_string a): a when it is a string, nothing otherwise"),
 ]:
     out += fn(mod, T+file, fid, "        match arg(self.0@, value, 0) { Some(v) => if v matches %s { Some(v) } else { None }, None => None }" % pat, doc)
+# ---- batch 4: = != concat join
+out += '''
+pub mod vstr {
+use vstd::prelude::*;
+#[verifier::external_body]
+pub fn string_of(s: &str) -> (r: String) ensures r@ == s@ { unimplemented!() }
+}
+// TryFrom<JsonValue> for String (src/json_value.rs): Ok exactly for a string, with that string
+impl TryFrom<JsonValue> for String {
+    type Error = CastError;
+    #[verifier::external_body]
+    fn try_from(value: JsonValue) -> (r: Result<Self, CastError>)
+        ensures r is Ok <==> value is String, r is Ok ==> JsonValue::String(r->Ok_0) == value,
+    { unimplemented!() }
+}
+pub open spec fn concat_from(args: Seq<Rc<dyn Get>>, value: &Context, i: int, acc: Seq<char>) -> Option<Seq<char>>
+    decreases args.len() - i
+{
+    if i < 0 || i >= args.len() { Some(acc) } else { match args[i].get_spec(value) { Some(JsonValue::String(s)) => concat_from(args, value, i + 1, acc.add(s@)), _ => None } }
+}
+// the items joined with the separator between EVERY two neighbours (also around empty strings)
+pub open spec fn join_from(items: Seq<JsonValue>, sep: Seq<char>, i: int, acc: Seq<char>) -> Option<Seq<char>>
+    decreases items.len() - i
+{
+    if i < 0 || i >= items.len() { Some(acc) } else { match items[i] {
+        JsonValue::String(s) => join_from(items, sep, i + 1, if i == 0 { s@ } else { acc.add(sep).add(s@) }), _ => None } }
+}
+pub open spec fn sep_of(o: Option<JsonValue>) -> Seq<char> { match o { Some(JsonValue::String(s)) => s@, _ => seq![',', ' '] } }
+pub open spec fn opt_str(o: Option<Seq<char>>) -> Option<JsonValue> { match o { Some(t) => Some(JsonValue::String(str_of(t))), None => None } }
+'''
+out += fn("f_eq", F+"boolean/compare/eq.rs", "f.eq", "        match (arg(self.0@, value, 0), arg(self.0@, value, 1)) { (Some(a), Some(b)) => Some(jbool(json_eq(a, b))), _ => None }", "(= a b): true exactly when the two values are equal (JsonValue's ==, the equality --unique and the sort order use); nothing when an argument is absent")
+out += fn("f_neq", F+"boolean/compare/neq.rs", "f.neq", "        match (arg(self.0@, value, 0), arg(self.0@, value, 1)) { (Some(a), Some(b)) => Some(jbool(!json_eq(a, b))), _ => None }", "(!= a b): the negation of (= a b); nothing when an argument is absent")
+out += fn("f_concat", F+"string/concat.rs", "f.concat", "        opt_str(concat_from(self.0@, value, 0, Seq::empty()))", "(concat a b ..): the strings one after the other; nothing when an argument is not a string",
+ extra='''//@@ body-start
+        broadcast use st::axiom_str_of, cl::axiom_string_ext;
+//@@ loop 1 iter it
+                    invariant
+                        it.seq().len() == self.0@.len(), 0 <= it.index@ <= self.0@.len(),
+                        forall|j: int| 0 <= j < it.seq().len() ==> *(#[trigger] it.seq()[j]) == self.0@[j],
+                        concat_from(self.0@, value, it.index@, all@) == concat_from(self.0@, value, 0, Seq::empty()),
+//@@ loop-start 1
+                    broadcast use st::axiom_str_of, cl::axiom_string_ext;
+''')
+out += fn("f_join", F+"list/list_folding/join.rs", "f.join", "        match arg(self.0@, value, 0) { Some(JsonValue::Array(l)) => opt_str(join_from(l@, sep_of(arg(self.0@, value, 1)), 0, Seq::empty())), _ => None }", "(join l sep): the strings of the list with sep (default comma-blank) between every two neighbours; nothing when an element is not a string or l is not a list",
+ rewrites="lit_into_string", extra='''//@@ body-start
+        broadcast use st::axiom_str_of, cl::axiom_string_ext;
+        proof { reveal_strlit(", "); assert(", "@ =~= seq![',', ' ']); }
+//@@ insert-after ".and_then(|f"
+ : JsonValue
+//@@ insert-after ".and_then(|f|"
+ -> (o: Option<String>) ensures (o is Some <==> f is String), o is Some ==> JsonValue::String(o->Some_0) == f, {
+//@@ insert-after "TryInto::<String>::try_into(f).ok()"
+ }
+//@@ loop 1 iter it
+                            invariant
+                                arg(self.0@, value, 0) == Some(JsonValue::Array(list)), sepetator@ == sep_of(arg(self.0@, value, 1)),
+                                it.seq() == list@, 0 <= it.index@ <= list@.len(),
+                                first == (it.index@ == 0), it.index@ == 0 ==> str@ =~= Seq::<char>::empty(),
+                                join_from(list@, sepetator@, it.index@, str@) == join_from(list@, sepetator@, 0, Seq::empty()),
+//@@ loop-start 1
+                            broadcast use st::axiom_str_of, cl::axiom_string_ext;
+                            let ghost str0 = str@;
+//@@ after "str.push_str(to_add.as_str());"
+                                    proof {
+                                        assert(list@[it.index@] == JsonValue::String(to_add));
+                                        assert(Seq::<char>::empty().add(to_add@) =~= to_add@);
+                                        assert(str@ == (if it.index@ == 0 { to_add@ } else { str0.add(sepetator@).add(to_add@) }));
+                                    }
+''')
+for _f in ("f.eq", "f.neq"):
+    _i = out.index("//@@ fn %s = " % _f)
+    _j = out.index("//@@ safety C04 C05", _i)
+    out = out[:_j] + "//@@ safety C04 C05 C10" + out[_j + len("//@@ safety C04 C05"):]
 out += "\n} // verus!\nfn main() {}\n"
 open('/verif/units/BASIC.rs','w').write(out)
